@@ -258,10 +258,29 @@ var (
 	stackBuf = make([]byte, 1<<20)
 )
 
+// UnknownRunning reports whether the last dumps may have missed goroutines: a
+// goroutine that is running on another thread is listed without its stack
+// ("stack unavailable"), so it cannot be told whether it executes library
+// code. Criteria that conclude "everything is parked" must not fire then.
+func unknownRunning(dump []byte) bool {
+	return bytes.Contains(dump, []byte("stack unavailable"))
+}
+
+var lastDumpHadUnknown bool // guarded by stackMu
+
+// LastDumpIncomplete reports whether the most recent Stacks() call saw a
+// goroutine whose stack was unavailable.
+func LastDumpIncomplete() bool {
+	stackMu.Lock()
+	defer stackMu.Unlock()
+	return lastDumpHadUnknown
+}
+
 func Stacks() []string {
 	stackMu.Lock()
 	defer stackMu.Unlock()
 	n := runtime.Stack(stackBuf, true)
+	lastDumpHadUnknown = unknownRunning(stackBuf[:n])
 	if !bytes.Contains(stackBuf[:n], []byte("github.com/emersion/go-smtp.")) {
 		return nil
 	}
@@ -298,7 +317,7 @@ func WaitNoServerGoroutines() []string {
 				left = append(left, g)
 			}
 		}
-		if len(left) == 0 {
+		if len(left) == 0 && !LastDumpIncomplete() {
 			return nil
 		}
 		if i < 50 {
@@ -459,9 +478,14 @@ func (w *Wire) deadlockStacks() []string {
 	check := func() []string {
 		var live []string
 		for _, g := range ServerGoroutines() {
-			if !knownLeaked[goroutineID(g)] {
+			// (the accept loop is always parked; it serves no connection)
+			if !knownLeaked[goroutineID(g)] && !strings.Contains(g, "harness.(*Listener).Accept") {
 				live = append(live, g)
 			}
+		}
+		if LastDumpIncomplete() {
+			// somebody is running on another thread and we cannot see what
+			return nil
 		}
 		if len(live) == 0 {
 			return nil
@@ -550,7 +574,11 @@ func StuckOnMutex(frame string) string {
 func allParked() bool {
 	snap := func() (mutexWaiters []string, ok bool) {
 		n := 0
-		for _, g := range ServerGoroutines() {
+		gs := ServerGoroutines()
+		if LastDumpIncomplete() {
+			return nil, false
+		}
+		for _, g := range gs {
 			if knownLeaked[goroutineID(g)] {
 				continue
 			}
